@@ -620,7 +620,7 @@ pub fn constants_program(rng: &mut Rng) -> (String, String) {
       1 => if rng.chance(1, 2) { "true".into() } else { "false".into() },
       2 => format!("{}/{}", 1 + rng.below(9), 1 + rng.below(9)),
       3 => format!("{}+{}i", rng.below(9), 1 + rng.below(9)),
-      4 => format!(":{}", *rng.pick(&["ok", "red", "north"])),
+      4 => format!(":{}", *rng.pick(&["ok", "red", "north", "a", "a-rather-long-atom-name-that-goes-on-and-on-for-more-than-sixty-four-bytes-in-all"])),
       _ => { let k = *rng.pick(&["f64", "f64", "u8", "u16", "u32", "u64", "u128", "i8", "i16", "i32", "i64", "i128", "f32"]); num(rng, k) }
     }
   }
@@ -641,11 +641,24 @@ pub fn constants_program(rng: &mut Rng) -> (String, String) {
       0 | 1 => scalar(rng),
       2 | 3 | 4 | 5 => matrix(rng),
       6 => { let m = 2 + rng.usize(4); let strs = rng.chance(1, 2); format!("{{{}}}", (0..m).map(|j| if strs { format!("\"{}{}\"", rand_string(rng), j) } else { format!("{}", j * 3 + rng.usize(3)) }).collect::<Vec<_>>().join(", ")) }
-      7 => format!("{{a: {}, b: {}, c: {}}}", scalar(rng), scalar(rng), matrix(rng)),
+      7 => if rng.chance(1, 2) { format!("{{a: {}, b: {}, c: {}}}", scalar(rng), scalar(rng), matrix(rng)) } else {
+        // records of every width (the type entry of a record holds its field names)
+        let nf = 1 + rng.usize(10);
+        let long = rng.chance(1, 3);
+        format!("{{{}}}", (0..nf).map(|j| format!("{}{}: {}", if long { "a-long-field-name-" } else { "f" }, j, scalar(rng))).collect::<Vec<_>>().join(", "))
+      },
       8 | 9 => {
         let rows = 1 + rng.usize(4);
         let body: Vec<String> = (0..rows).map(|_| format!("\"{}\" {} {}", rand_string(rng), num(rng, "f64"), if rng.chance(1, 2) { "true" } else { "false" })).collect();
-        format!("|n<string> v<f64> b<bool>| {} |", body.join(" | "))
+        if rng.chance(1, 2) { format!("|n<string> v<f64> b<bool>| {} |", body.join(" | ")) } else {
+          // tables of every width (the type entry of a table holds its column names and kinds)
+          let nc = 1 + rng.usize(10);
+          let long = rng.chance(1, 3);
+          let kinds: Vec<&str> = (0..nc).map(|_| *rng.pick(&["f64", "f64", "u8", "u64", "bool", "string", "i32"])).collect();
+          let head: Vec<String> = kinds.iter().enumerate().map(|(j, k)| format!("{}{}<{}>", if long { "a-long-column-name-" } else { "c" }, j, k)).collect();
+          let body: Vec<String> = (0..rows).map(|_| kinds.iter().map(|k| match *k { "string" => format!("\"{}\"", rand_string(rng)), "bool" => if rng.chance(1, 2) { "true".to_string() } else { "false".to_string() }, "f64" => num(rng, "f64"), k => num(rng, k) }).collect::<Vec<_>>().join(" ")).collect();
+          format!("|{}| {} |", head.join(" "), body.join(" | "))
+        }
       }
       10 => { let m = 1 + rng.usize(3); format!("{{{}}}", (0..m).map(|j| format!("\"k{}{}\": {}", j, rand_string(rng), if rng.chance(1, 2) { format!("\"{}\"", rand_string(rng)) } else { num(rng, "f64") })).collect::<Vec<_>>().join(", ")) }
       _ => matrix(rng), // no tuple literals: `compile()` does not terminate on tuple constants (pinned tree)
